@@ -12,6 +12,24 @@ CLAIMED = {
         "Spec-free oracle: the library is compared with itself, so it cannot demand more than the statement. Covers only inputs the workload produces.",
         "DESIGN.md section 3, C02",
     ),
+    "C12": (
+        "runtime monitor: metamorphic agreement of five entry points with the typed API; exhaustive 30x30 typed matrix and codes 000-999",
+        "Exploration, exhaustive in the type dimensions: every (announced, requested) pair of the 30 types and every three-digit code is driven through parse_auto, typed parse and the parse / validate / publish plugin handlers on real messages; results are compared with the typed API and with the fixed T03 / unsupported expectations.",
+        "Bodies are sampled from the committed scenario corpus; equality of results is judged on serde_json values.",
+        "DESIGN.md section 3, C12",
+    ),
+    "C13": (
+        "runtime monitor: metamorphic coherence oracle (prefix, emptiness, repeatability, immutability, four entry points) over valid and JSON-surgery rule-violating messages",
+        "Exploration: every corpus message and thousands of JSON-surgery variants per type (messages violating zero, one or several rules) are validated twice through the body API, SwiftMessage::validate, the auto-detected wrapper and the validate plugin; the monitor checks prefix/emptiness of stop-on-first, agreement of all verdicts, repeatability (code and text) and that the message is unchanged.",
+        "Spec-free: only compares the library with itself. Error identity = (code, Display text).",
+        "DESIGN.md section 3, C13",
+    ),
+    "C15": (
+        "runtime monitor: exact JSON comparison over the real generate/publish/validate/parse plugin pipeline on every shipped scenario x N seeded draws",
+        "Exploration: every scenario file found at run time is drawn 300 (quick) / 5000 (thorough) times through the real datafake generator and the real plugin handlers; the parsed JSON must equal the generated JSON exactly (no rounding), validation must report no error.",
+        "Draws are random (seeded through an LD_PRELOAD entropy shim when a C compiler is present); the generated JSON is the stored witness.",
+        "DESIGN.md section 3, C15",
+    ),
     "C07": (
         "runtime monitor: catch_unwind + panic-hook over all public entry points on hostile/mutated inputs; CPU-time size ramps",
         "Exploration: every public parse / validate / serialise / JSON / error-rendering entry point is executed under a panic monitor on corpus-derived, systematically and randomly mutated inputs (non-ASCII, truncation, structure characters, size ramps); held = no panic/timeout outside the listed known findings on the executions observed.",
